@@ -61,7 +61,7 @@ let string_of_n_list (l : n list) : string = String.concat " " (List.map string_
 
 (* hex byte strings; "-" is the empty string *)
 let bytes_of_hex (s : string) : n list =
-  if s = "-" || s = "" then []
+  if s = "-" || s = "" || s = "e" then []
   else
     let len = String.length s / 2 in
     List.init len (fun i -> n_of_int (int_of_string ("0x" ^ String.sub s (2 * i) 2)))
